@@ -110,8 +110,8 @@ func init() {
 				}
 			}
 		}
-		// a stale outcome in the outcome channel across Stop + Start (single CPU)
-		for _, r := range runRounds("c16_inflight", seed, reps*4, 4) {
+		// a request whose Push lands after Stop, and a stale outcome in the outcome channel across Stop + Start (single CPU)
+		for _, r := range append(runRounds("c16_latepush", seed, reps*2, 4), runRounds("c16_inflight", seed, reps*4, 4)...) {
 			rep.Evaluations++
 			if r.Events > 0 && len(r.Violations) == 0 {
 				rep.Distinct++
